@@ -143,8 +143,10 @@ def _member_name(decl):
 
 
 def _subst(text, tparams):
-    for k, v in (tparams or {}).items():
-        text = re.sub(r'\b' + re.escape(k) + r'\b', v, text)
+    for k, v in sorted((tparams or {}).items(), key=lambda kv: -len(kv[0])):
+        pre = r'\b' if re.match(r'\w', k[0]) else ''
+        post = r'\b' if re.match(r'\w', k[-1]) else ''
+        text = re.sub(pre + re.escape(k) + post, v, text)
     return text
 
 
@@ -181,7 +183,7 @@ def _op_struct(repo, p):
         nested = p.get('nested_ctor', {})
         tkey = re.sub(r'\b(struct|const|volatile)\b', '', mtype).strip()
         if init is not None:
-            init = _subst(init, p.get('tparams'))
+            init = re.sub(r'\bnullptr\b', 'NULL', _subst(init, p.get('tparams')))
             if re.match(r'^\{\s*\}$', init):
                 inits.append('    memset(&self->%s, 0, sizeof(self->%s));' % (mname, mname))
             elif init.startswith('{'):
